@@ -337,6 +337,12 @@ func AddRoute(ws *restful.WebService, rs *RouteSpec, o BuildOpts) {
 	if len(rs.NoCT) > 0 {
 		b.AllowedMethodsWithoutContentType(rs.NoCT)
 	}
+	switch rs.Enc {
+	case 1:
+		b.ContentEncodingEnabled(true)
+	case 2:
+		b.ContentEncodingEnabled(false)
+	}
 	for k, c := range rs.Conds {
 		b.If(condFunc(rs.ID, k, c))
 	}
